@@ -107,21 +107,21 @@ CHECKS.update({
 CHECKS.update({
  "C15": dict(
    technique="explicit-state exploration of compilation histories in one process (all sequences of <= d compilations over a program set built to exercise every name/hash-keyed table), each observation compared with fresh-process observations (shape S)",
-   text="Every history of up to d compilations over eighteen programs (type declarations, aliases, modules, macros, destructuring patterns inside quoted code, locally bound values of a recursive sum type, records, the scheduler, programs re-using other programs' short names) is executed in a worker process, on a thread started under one of a stated set of HashMap seeds; the last compilation's bytecode listing, WASM bytes, state layout and VM/WASM outputs must equal those of an immediate recompilation and those obtained in fresh processes, whatever was compiled before.",
+   text="Every history of up to d compilations over twenty programs (type declarations, aliases, modules, macros, destructuring patterns inside quoted code, locally bound values of a recursive sum type, records, the scheduler, programs re-using other programs' short names, one type-alias name declared with different shapes in two modules) is executed in a worker process, on a thread started under one of a stated set of HashMap seeds; the last compilation's bytecode listing, WASM bytes, state layout and VM/WASM outputs must equal those of an immediate recompilation and those obtained in fresh processes, whatever was compiled before.",
    note="The harness owns the HashMap seeds (it defines getrandom, which std's RandomState draws from): histories run under seed indices 1..5 (thorough 1..11) and fresh process k under seed index k, so the explored seeds are stated, not drawn at random, and a violation replays exactly; the other 2^128 seeds are not explored. The MIR text is not compared (it embeds interner ids).",
    design="4/C15"),
 })
 CHECKS.update({
  "C14": dict(
-   technique="bounded-exhaustive enumeration of syntactically valid programs (families, layout/comment variants, hand-written production coverage, corpus) x line widths through the real formatter, with parse-back, comment and fixed-point oracles (shape E)",
-   text="Every program of the families below the bound in seven layout/comment variants, a set of hand-written texts covering the remaining productions, and every corpus file that parses, is formatted at six widths; the output must parse without errors to the same AST (spans erased), contain the same comments in the same order, and be a fixed point of the formatter.",
-   note="AST equality uses mimium's own structural print with spans erased. Indent size fixed at the default. The formatter is known to be experimental: many productions have open findings, each keyed on the production that triggers it.",
+   technique="bounded-exhaustive enumeration of syntactically valid programs (families, layout/comment variants, single-gap comment and line-break deviations, hand-written production coverage, corpus) x line widths through the real formatter, with parse-back, comment and fixed-point oracles (shape E)",
+   text="Every program of the families below the bound in ten layout/comment variants (among them a block comment at the start, and at the end, of every line), thirty hand-written texts covering the remaining productions (match, type declarations, typed parameters and lambdas, record patterns, modules, use lists, ...) in the same variants, every corpus file that parses, and every single-gap deviation (a block comment at every token boundary; inside parentheses and square brackets also a line break and a line comment) of every one-operation program and of every text, is formatted at six widths; the output must parse without errors to the same AST (spans erased), contain the same comments in the same order, and be a fixed point of the formatter.",
+   note="AST equality uses mimium's own structural print with spans erased. Indent size fixed at the default. Seven formatter defects found by this check were repaired in the repository (fix commits 2ea57d3..da018f5); no finding is open for it.",
    design="4/C14"),
 })
 CHECKS.update({
  "C19": dict(
    technique="stateless exploration of thread interleavings of the real compiler under a hand-rolled controlled (baton) scheduler with scheduling points (cfg-guarded hooks) before every access to process-global shared state; preemption-bounded (0, 1, partially 2); every schedule executed in a fork of one frozen process state with harness-owned hash seeds, so schedules replay exactly (shape S)",
-   text="Two OS threads each compile and run one program from a menu built to collide (identical sources, shared identifiers, syntax error, type error, macro expansion, a 64 KiB identifier, type declarations, two macro programs whose main-stage code goes through the staging translation with a nested resp. flat tuple let, a program importing library modules from files, two programs that include the same file, which in turn includes a larger one); only one thread runs at a time and control can change hands only at scheduling points placed before every use of the interner, the macro-file environment variable and the diagnostics file cache. Both serial orders and every single preemption (quick: at every s-th point with s = 16, or more for long jobs so that a pair has at most ~2400 schedules; thorough: at every point, plus a sparse second preemption) are executed; in every schedule each thread must obtain exactly the diagnostics and outputs it obtains alone, with no panic and no deadlock.",
+   text="Two OS threads each compile and run one program from a menu built to collide (identical sources, shared identifiers, syntax error, type error, macro expansion, a 64 KiB identifier, type declarations, two macro programs whose main-stage code goes through the staging translation with a nested resp. flat tuple let, a program importing library modules from files, two programs that include the same file, which in turn includes a larger one, two programs whose differently named modules each declare a type alias of one name); only one thread runs at a time and control can change hands only at scheduling points placed before every use of the interner, the macro-file environment variable and the diagnostics file cache. Both serial orders and every single preemption (quick: at every s-th point with s = 16, or more for long jobs so that a pair has at most ~2400 schedules; thorough: at every point, plus a sparse second preemption) are executed; in every schedule each thread must obtain exactly the diagnostics and outputs it obtains alone, with no panic and no deadlock.",
    note="Sequentially consistent interleavings at hook granularity only; loom/shuttle cannot intercept std::sync inside mimium-lang and do not finish on ~7000 lock operations per job, hence the hand-rolled scheduler. Unsynchronised memory effects (the transmuted &str from Symbol::as_str vs. reallocation of the interner buffer) cannot be observed by a cooperative scheduler; the thorough tier therefore re-executes the quick-bound schedule set under an AddressSanitizer build (nightly, offline; self-tested on a probe of exactly that pattern; evidence in C19-asan.json), which reports such an access if an explored schedule performs it. Each schedule runs in a forked copy of the warmed-up worker with getrandom interposed (VERIF_DET_RANDOM), so scheduling-point numbers are exact and a violation replays point for point.",
    thorough_cmd="./check C19 --tier thorough && ./check C19 --asan",
    design="4/C19"),
